@@ -53,16 +53,17 @@ type Obligation struct {
 	Note   string // human description
 	SMT    string
 	// results
-	Status string // unsat sat unknown timeout error
-	Solver string
-	Time   float64
-	Model  string
-	Watch  []WatchTerm // named terms whose model values are requested (replay / debugging)
-	fn     *ssa.Function
-	M      int
-	funs   map[string]string // signature table of the term store the terms live in
-	file   string            // query file (assigned on first use)
-	FProp  string            // finding queries: the property the recorded finding belongs to
+	Status     string // unsat sat unknown timeout error
+	Solver     string
+	Time       float64
+	Model      string
+	Watch      []WatchTerm // named terms whose model values are requested (replay / debugging)
+	fn         *ssa.Function
+	M          int
+	funs       map[string]string // signature table of the term store the terms live in
+	file       string            // query file (assigned on first use)
+	FProp      string            // finding queries: the property the recorded finding belongs to
+	fewSolvers bool              // recorded as slow in the baseline: tried with the first two solvers only
 }
 
 type Exec struct {
